@@ -141,4 +141,22 @@ pub fn run(ctx: &Ctx) {
         let d = refmodel::eip712::Doc { types: vec![("EIP712Domain".into(), members), ("Msg".into(), sv(&[("x", "uint256")]))], primary: "Msg".into(), domain: J::Obj(dom), message: J::obj(vec![("x", J::n("7"))]) };
         check_doc(ctx, P, "undeclared-standard-domain-member", i, &format!("domain-value:undeclared-standard-member={}{}", fields[extra].0, if null { ",null" } else { "" }), &d);
     });
+    // a struct type that declares a member name more than once, against value objects whose member SET is wrong but whose
+    // member COUNT may match the declaration (a check that counts members instead of matching them): whatever is made of
+    // the repeated declaration itself, an undeclared or a missing member is refused
+    let decls: Vec<(&str, Vec<(&str, &str)>)> = vec![("distinct", vec![("to", "address"), ("amount", "uint256")]), ("repeat-adjacent", vec![("to", "address"), ("amount", "uint256"), ("amount", "uint256")]), ("repeat-apart", vec![("amount", "uint256"), ("to", "address"), ("amount", "uint256")]),
+        ("repeat-thrice", vec![("amount", "uint256"), ("amount", "uint256"), ("amount", "uint256"), ("to", "address")]), ("repeat-with-another-type", vec![("to", "address"), ("amount", "uint256"), ("amount", "uint64")]), ("both-repeated", vec![("to", "address"), ("to", "address"), ("amount", "uint256"), ("amount", "uint256")])];
+    let vals: Vec<(&str, bool, usize)> = vec![("exact", false, 0), ("one-undeclared", false, 1), ("two-undeclared", false, 2), ("three-undeclared", false, 3), ("missing-one-and-one-undeclared", true, 1), ("missing-one-and-two-undeclared", true, 2)];
+    let places = ["message", "member", "second-array-element"];
+    ctx.sweep("member-sets-against-repeated-declarations", "6 declarations of a two-member struct (distinct; a name declared twice adjacent / apart / three times / with another type / both names twice) x value objects with the exact member set, with 1..3 undeclared members added, with one member missing and 1..2 undeclared ones in its place x the struct as the message, as a member, as the second element of an array: an undeclared or a missing member is refused whatever the member count", (decls.len() * vals.len() * places.len()) as u64, |i| {
+        let (dn, decl) = &decls[i as usize / (vals.len() * places.len())]; let (vn, missing, extra) = vals[(i as usize / places.len()) % vals.len()]; let place = places[i as usize % places.len()];
+        let mut obj: Vec<(&str, J)> = vec![("amount", J::n("5"))]; if !missing { obj.insert(0, ("to", J::s("0xbBbBBBBbbBBBbbbBbbBbbbbBBbBbbbbBbBbbBBbB"))); }
+        for (k, name) in ["memo", "nonce", "x"].iter().enumerate().take(extra) { obj.insert((i as usize + k) % (obj.len() + 1), (name, if k == 0 { J::s("rent") } else { J::n("1") })); }
+        let good = J::obj(vec![("to", J::s("0xbBbBBBBbbBBBbbbBbbBbbbbBBbBbbbbBbBbbBBbB")), ("amount", J::n("5"))]); let v = J::obj(obj);
+        let pay = ("Payment".to_string(), sv(decl));
+        let d = match place { "message" => simple_doc(vec![pay], "Payment", v),
+            "member" => simple_doc(vec![("Order".into(), sv(&[("id", "uint256"), ("p", "Payment")])), pay], "Order", J::obj(vec![("id", J::n("1")), ("p", v)])),
+            _ => simple_doc(vec![("Order".into(), sv(&[("id", "uint256"), ("ps", "Payment[]")])), pay], "Order", J::obj(vec![("id", J::n("1")), ("ps", J::Arr(vec![good, v]))])) };
+        check_doc(ctx, P, "member-sets-against-repeated-declarations", i, &format!("declaration={dn}:value={vn}:{place}"), &d);
+    });
 }
